@@ -161,6 +161,8 @@ ALT = {
     ("ExchangeMove", "bias_towards_insert"): 0.0,
     ("CompositeExchangeMove", "bias_towards_insert"): 0.0,
     ("Verlet", "max_steps"): 1,
+    # a time step ASSIGNED on the live integrator (step-size adaptation), in ASE units: not of the form x * fs
+    ("Verlet", "dt"): ("assign", 0.030644085465574754),
     ("Canonical", "temperature"): 1e-3,
     ("GrandCanonical", "chemical_potential"): -0.0,
     ("GrandCanonical", "number_of_exchange_particles"): 7,
@@ -185,6 +187,9 @@ def build(cfg, R, atoms_n=3):
     kw, attrs, expected = {}, {}, {}
     for p, (dflt, nd, kind) in r["params"].items():
         val = (ALT.get((name, p), nd) if VARIANT else nd) if p in chosen else dflt
+        if isinstance(val, tuple) and len(val) == 2 and val[0] == "assign":
+            attrs[p] = val[1]  # set on the object after construction, whatever the parameter's usual route
+            continue
         if kind in ("ctor", "ctor_req"):
             if p in chosen or kind == "ctor_req":
                 kw[p] = val
@@ -313,10 +318,67 @@ def run_case(cid, cfg, R):
     return row
 
 
+OWNER = {"operation": "quansino.operations", "integrator": "quansino.integrators", "move": "quansino.moves", "criteria": "quansino.mc", "storage": "quansino.mc", "driver": "quansino.mc"}
+
+
+def write_docs(cases_file, out):
+    """serialize every configuration (all modules imported) -> [{id, cls, role, text}]"""
+    from ase.io.jsonio import encode
+
+    import quansino
+
+    for mi in pkgutil.walk_packages(quansino.__path__, "quansino."):
+        if not any(part.startswith("_") for part in mi.name.split(".")):
+            importlib.import_module(mi.name)
+    R = recipes()
+    docs = []
+    for cid, cfg in enumerate(json.load(open(cases_file))):
+        if cfg is None:
+            continue
+        try:
+            obj, _ = build(cfg, R)
+            docs.append({"id": cid, "cls": cfg["cls"], "role": R[cfg["cls"]]["role"], "text": encode(obj.to_dict())})
+        except Exception:  # noqa: BLE001  (judged by the main pass)
+            continue
+    json.dump(docs, open(out, "w"))
+
+
+def read_docs(first, owner, docs_file):
+    """a READER that never built the objects: import `first`, then only the sub-package that owns the top-level class
+    (a script that rebuilds a move imports quansino.moves); everything nested must be found through the registry"""
+    from ase.io.jsonio import decode, encode
+
+    importlib.import_module(first)
+    importlib.import_module(owner)
+    from quansino.registry import get_class
+
+    for doc in json.load(open(docs_file)):
+        if OWNER[doc["role"]] != owner:
+            continue
+        row = {"id": doc["id"], "cls": doc["cls"], "status": "ok", "message": "", "detail_key": "", "variant": 0}
+        try:
+            d = decode(doc["text"])
+            obj = get_class(d["name"]).from_dict(d)
+            d2 = decode(encode(obj.to_dict()))
+            if not equal(d, d2):
+                row.update(status="reader:second-dict-differs", message="a reader that only imported " + owner + " rebuilds an object whose dictionary differs")
+        except Exception as ex:  # noqa: BLE001
+            why = str(ex)
+            key = type(ex).__name__ + (":not-registered" if "not registered" in why else "")
+            row.update(status="reader:rebuild-fails", message=f"a fresh interpreter that imported {first} and {owner} cannot rebuild it by registered name: {type(ex).__name__}: {why[:140]}", detail_key=key)
+        print("@@" + json.dumps(row))
+    return 0
+
+
 def main():
     if sys.argv[1] == "--catalogue":
         catalogue(sys.argv[2])
         return 0
+    if sys.argv[1] == "--write":
+        write_docs(sys.argv[2], sys.argv[3])
+        return 0
+    if sys.argv[1] == "--read":
+        return read_docs(sys.argv[2], sys.argv[3], sys.argv[4])
     first, cases_file = sys.argv[1], sys.argv[2]
     importlib.import_module(first)
     for sub in ("quansino.mc", "quansino.moves", "quansino.operations", "quansino.integrators", "quansino.io", "quansino.utils"):
